@@ -24,6 +24,13 @@ func RepresentToPublicKey(pk *gabikeys.PublicKey, exps []*big.Int) (*big.Int, er
 	if len(exps) > len(pk.R) {
 		return nil, errors.New("more messages than bases in the public key")
 	}
+	for _, exp := range exps {
+		// Messages are non-negative integers. (A message longer than l_m is represented by the hash
+		// of its bytes, which do not include the sign: m and -m would share one signature.)
+		if exp == nil || exp.Sign() < 0 {
+			return nil, errors.New("message is not a non-negative integer")
+		}
+	}
 	return common.RepresentToBases(pk.R, exps, pk.N, pk.Params.Lm), nil
 }
 
